@@ -136,6 +136,10 @@ func (m *lifecycleManager) updateCapabilities() {
 		}
 	}
 
+	// Initialize requests of different sessions run concurrently: publish the new map under the lock.
+	m.mu.Lock()
+	defer m.mu.Unlock()
+
 	// Preserve existing experimental features
 	if exp, ok := m.capabilities["experimental"]; ok {
 		capMap["experimental"] = exp
@@ -208,13 +212,16 @@ func (m *lifecycleManager) saveSessionState(session Session, protocolVersion str
 
 // buildInitializeResponse creates the initialization response
 func (m *lifecycleManager) buildInitializeResponse(protocolVersion string) InitializeResult {
+	m.mu.RLock()
+	capabilities := m.capabilities
+	m.mu.RUnlock()
 	return InitializeResult{
 		ProtocolVersion: protocolVersion,
 		ServerInfo: Implementation{
 			Name:    m.serverInfo.Name,
 			Version: m.serverInfo.Version,
 		},
-		Capabilities: convertToServerCapabilities(m.capabilities),
+		Capabilities: convertToServerCapabilities(capabilities),
 		Instructions: "MCP server is ready",
 	}
 }
